@@ -34,6 +34,9 @@ type c06Case struct {
 	// truthful SIZE), each followed by a message that fits: "after an oversized message is refused
 	// the session remains usable", however often that has happened before.
 	Refusals int `json:"refusals,omitempty"`
+	// Helo: the client greets with HELO instead of EHLO (the limit is the server's, whatever was
+	// negotiated); "helo-ehlo": HELO first, EHLO later
+	Greet string `json:"greet,omitempty"`
 }
 
 func c06Repeated(c *fw.Ctx, cas c06Case) {
@@ -155,7 +158,15 @@ func c06Exec(c *fw.Ctx, cas c06Case) (nontrivial bool) {
 	}
 	mo := model.NewStore(0, 0)
 	d.Greeting()
-	d.Cmd("EHLO c.test")
+	switch cas.Greet {
+	case "helo":
+		d.Cmd("HELO c.test")
+	case "helo-ehlo":
+		d.Cmd("HELO c.test")
+		d.Cmd("EHLO c.test")
+	default:
+		d.Cmd("EHLO c.test")
+	}
 	param := ""
 	declared, numeric := int64(0), false
 	switch cas.Declare {
@@ -295,11 +306,11 @@ func c06Run(c *fw.Ctx) {
 					if !c.Mine(n) {
 						continue
 					}
-					for _, variant := range []string{"", "discard", "ext-allow", "one-line", "blank-lead", "blank-trail"} {
+					for _, variant := range []string{"", "discard", "ext-allow", "one-line", "blank-lead", "blank-trail", "helo", "helo-ehlo"} {
 						if variant != "" && be == "file" {
 							continue // these variants do not depend on the back-end
 						}
-						cas := c06Case{Limit: L, Size: sz, Declare: decl, Backend: be, Discard: variant == "discard", ExtAllow: variant == "ext-allow", OneLine: variant == "one-line", Blank: strings.TrimPrefix(map[bool]string{true: variant}[strings.HasPrefix(variant, "blank-")], "blank-")}
+						cas := c06Case{Limit: L, Size: sz, Declare: decl, Backend: be, Discard: variant == "discard", ExtAllow: variant == "ext-allow", OneLine: variant == "one-line", Greet: map[bool]string{true: variant}[strings.HasPrefix(variant, "helo")], Blank: strings.TrimPrefix(map[bool]string{true: variant}[strings.HasPrefix(variant, "blank-")], "blank-")}
 						if !c.Begin(func() any { return cas }) {
 							continue
 						}
